@@ -22,7 +22,9 @@ func searchAlone(f func() interface{}, count int) []interface{} {
 func parallelizeAlone(f func(int) interface{}, count int) []interface{} {
 	results := make([]interface{}, count)
 	for i := 0; i < len(results); i++ {
+		taskEnter()
 		results[i] = f(i)
+		taskLeave()
 	}
 	return results
 }
